@@ -111,6 +111,12 @@ EXTRA = {
     "C19": " Every other Rect leaf has corners of very different magnitude and sign.",
 }
 
+EXTRA4 = {'C01': ' Signed-zero variants (-0.0) of every family member; ulp windows around points of slanted ring edges against an exact point-in-ring oracle.', 'C02': ' Signed-zero variants of shapes and query coordinates.', 'C03': ' Triples at the ends of the exponent range (2^-600, 2^600: known finding in the robust dependency), reversed rings and rings used as holes in the ulp windows, -0.0 checks.', 'C04': ' clip with empty subject / empty clipping polygon under both values of invert.', 'C05': ' Integer rings far from the origin (i16 at 20000, i32 at 1e8, i64 at 3e9).', 'C06': ' MultiPolygons mixing zero-area members with areal ones; polygons with degenerate holes.', 'C09': ' Tolerance alphabet down to 1e-20; three different interior rings must come back in order.', 'C10': ' ulp windows around points of slanted chain segments for the MonoPoly point location.', 'C12': ' Nested MultiPolygons (island in a lake); every geometry type at extent 2^-600 queried from an ordinary distance.', 'C13': ' Winding order of closed line strings under maps of either determinant sign.', 'C14': ' Huge finite ordinates (f64::MAX, -f64::MAX, 1.5e308) must stay valid; EMPTY members in every position.', 'C15': ' Also a 2^-60 twin.', 'C18': ' Rect::try_new with corners in every relative position.', 'C20': ' Large triangulation inputs (1500 scattered points; 416 constraint segments with 8 crossing pairs; a 10x10 grid of squares) under every hash seed, pool size and call history.'}
+for _k, _v in EXTRA4.items():
+    EXTRA[_k] = EXTRA.get(_k, "") + _v
+EXTRA["C11"] = " Every lattice case is repeated at the exact scales 2^-30 and 2^30 (bit-identical answer after scaling back) and in f32."
+EXTRA["C16"] = " points_along_line against distance / point_at_distance_between of the same metric space; a Neptune-sized HaversineMeasure."
+
 NOT_YET = "check not built yet in this round (planned: bounded exhaustive exploration, see DESIGN.md §4)"
 
 def main():
